@@ -195,3 +195,11 @@ def make(cls, batch=(2, 3), seed=0, lock=None, strings=None, flavour="float"):
     if lock is not None:
         kw["lock"] = lock
     return cls(**kw)
+
+
+def make_lazy(cls, seed=0, flavour="float"):
+    """the same content as `make(cls, batch=(2, 3))`-shaped data, but LAZILY stacked: a tensorclass around a
+    LazyStackedTensorDict of two batch-(3,) members (stack dim 0)"""
+    from tensordict import LazyStackedTensorDict
+    members = [make(cls, batch=(3,), seed=seed * 10 + i, flavour=flavour) for i in range(2)]
+    return LazyStackedTensorDict.lazy_stack(members, 0)
